@@ -87,8 +87,8 @@ class Prog:
     def fnvalue(self, name: str, *args, **kw) -> int:
         return self._node("value", v=fn(name, *args, **kw))
 
-    def option(self, key: str, dflt: Optional[int] = None, dom: Optional[int] = None, bare: bool = False) -> int:
-        return self._node("option", key=key, dflt=dflt, dom=dom, bare=True if bare else None)
+    def option(self, key: str, dflt: Optional[int] = None, dom: Optional[int] = None, bare: bool = False, **extra) -> int:
+        return self._node("option", key=key, dflt=dflt, dom=dom, bare=True if bare else None, **extra)
 
     def apply(self, e: int, f: int, via: str = "apply") -> int:
         return self._node("apply", e=e, f=f, via=via)
@@ -150,8 +150,8 @@ class Prog:
     def pipeline(self, tail: int, rest: Optional[int] = None) -> int:
         return self._node("pipeline", tail=tail, rest=rest)
 
-    def namespace(self, key: str, members: Sequence[Tuple[str, int]]) -> int:
-        return self._node("namespace", key=key, members=[[n, i] for n, i in members])
+    def namespace(self, key: str, members: Sequence[Tuple[str, int]], **extra) -> int:
+        return self._node("namespace", key=key, members=[[n, i] for n, i in members], **extra)
 
     def dataset(self, params: Sequence[Tuple[str, int]] = (), fn_name: Optional[str] = None,
                 dispatch: Optional[int] = None, table: Sequence[Tuple[Any, int]] = (),
